@@ -59,7 +59,7 @@ def sparse_forward(ctx):
     p = arg_names(fn)
     loops = [l for l in ast.walk(fn) if isinstance(l, ast.For) and isinstance(l.target, ast.Name)]
     calls = [c for c in ast.walk(fn) if isinstance(c, ast.Call) and isinstance(c.func, ast.Name) and c.func.id in p]
-    ok, msg = False, "no single call of the kernel parameter inside one loop over the elements"
+    ok, msg = None, "no single call of the kernel parameter inside one loop over the elements"
     if len(loops) == 1 and len(calls) == 1:
         lp, c = loops[0], calls[0]
         I = lp.target.id
